@@ -145,5 +145,176 @@ Theorem legacy_partitions_refuted :
 Proof. exact legacy_partitions_both. Qed.
 Print Assumptions legacy_partitions_refuted.
 
+(* BRIDGE rows -> task (Model/BridgeRowsTask.v, Proofs/BridgeRowsTaskP.v).
+   Above, a block's rows are ABSTRACT ([b_rows]: (key, val) numbers).  Here
+   they are INSTANTIATED by the row builder of C11 (Model/Rows.v) for a
+   declared integration [dcl] (context [ctx], referenced tables [dbs]):
+   [inst_chain dcl ctx dbs rbs] is the task-level chain of the rows-level
+   canonical chain [rbs : list Rows.blockr]; a block's rows are the rows
+   [kinsert] emits for it -- Rows.insert with every row tagged by its identity
+   key (tx_idx, log_idx, abi_idx, trace_action_idx) -- encoded into numbers by
+   the injective [enc_key] / [enc_row]; hashes become ids by the injective [hid]. *)
+From Shovel Require Model.Filter Model.Rows Proofs.BridgeRowsTaskP.
+From Shovel Require Import Model.BridgeRowsTask.
+
+(* equality of task-level keys / values / hash ids is equality of identity
+   keys / of C11 rows (cell by cell) / of hashes; id 0 is exactly the empty hash *)
+Theorem bridge_encodings_injective :
+  (forall x y, enc_key x = enc_key y -> x = y)
+  /\ (forall x y : list Filter.gval, enc_row x = enc_row y -> x = y)
+  /\ (forall a b, hid a = hid b -> a = b)
+  /\ (forall h, hid h = 0 <-> h = []).
+Proof. exact BridgeRowsTaskP.encodings_injective. Qed.
+Print Assumptions bridge_encodings_injective.
+
+(* the tags change nothing: forgetting the keys, the keyed builder returns
+   exactly what Integration.Insert (C11's [insert]) returns on that block --
+   same rows, same order, same error / panic; and Insert over a batch is the
+   concatenation of the per-block Inserts *)
+Theorem bridge_keyed_builder_is_insert :
+  (forall d c dbs b, omap (map snd) (kinsert d c dbs b) = Rows.insert Rows.fixed d c dbs [b])
+  /\ (forall d c dbs bs, Rows.insert Rows.fixed d c dbs bs
+                         = Rows.concatM (fun b => Rows.insert Rows.fixed d c dbs [b]) bs).
+Proof. exact BridgeRowsTaskP.keyed_builder_is_insert. Qed.
+Print Assumptions bridge_keyed_builder_is_insert.
+
+(* a rows-level chain numbered from 0 with non-empty hashes instantiates to a
+   well-formed task-level chain of the same height and numbers *)
+Theorem bridge_chain_wf : forall dcl ctx dbs rbs,
+  rows_chain_wf rbs ->
+  wf_chain (inst_chain dcl ctx dbs rbs) /\ height (inst_chain dcl ctx dbs rbs) = N.of_nat (length rbs)
+  /\ map b_num (inst_chain dcl ctx dbs rbs) = map Rows.b_num rbs.
+Proof. exact BridgeRowsTaskP.inst_chain_ok. Qed.
+Print Assumptions bridge_chain_wf.
+
+(* (2) the side condition of the liveness theorems, PROVED for the
+   instantiation under the exact precondition on the rows-level blocks
+   [wf_items]: distinct transaction indices in a block, distinct log indices
+   and distinct trace-action indices inside a transaction.  Every instantiated
+   block is the instantiation of a block of the chain and carries its number
+   (the task model stamps it on every row: [r_bnum]). *)
+Theorem declared_rows_keys_distinct : forall dcl ctx dbs rbs parent x,
+  Forall wf_items rbs -> In x (inst_from dcl ctx dbs parent rbs) ->
+  NoDup (map fst (b_rows x))
+  /\ exists b q, In b rbs /\ x = inst_blk dcl ctx dbs q b /\ b_num x = Rows.b_num b.
+Proof. exact BridgeRowsTaskP.inst_keys_distinct. Qed.
+Print Assumptions declared_rows_keys_distinct.
+
+(* ... and the precondition is needed: one transaction with two matching logs
+   of the same log index gives two rows with one key *)
+Theorem declared_rows_keys_unconditional_refuted : ~ keys_distinct_unconditional.
+Proof. exact BridgeRowsTaskP.keys_unconditional_refuted. Qed.
+Print Assumptions declared_rows_keys_unconditional_refuted.
+
+(* (1) growth_table_is_projection for the instantiated chain.  If Insert
+   returns Ok on every block of the chain ([inserts_ok]; otherwise the step
+   fails and nothing is stored) then, in every state satisfying the growth
+   invariant, the pair's table rows are, in block order, exactly the keyed
+   rows the declared row builder emits for each block of the indexed range
+   [m, m+k) -- each stamped with table, source, integration and the block's
+   number -- and nothing else; their values are, in order, the encodings of
+   the rows ONE Integration.Insert over the blocks of the range returns. *)
+Theorem growth_table_is_declared_projection : forall dcl ctx dbs rbs c d,
+  inserts_ok dcl ctx dbs rbs -> N.of_nat (length rbs) < nmax ->
+  TaskInvG c (inst_chain dcl ctx dbs rbs) d ->
+  (d_rows (pv c d) = [] /\ d_curs (pv c d) = [])
+  \/ exists m k n h rows,
+       1 <= k /\ m + k <= N.of_nat (length rbs)
+       /\ newest (t_src c) (t_ig c) (d_curs d) = Some (n, h) /\ n + 1 = m + k
+       /\ d_rows (pv c d) = concat (map (declared_rows c dcl ctx dbs) (rsegment rbs m k))
+       /\ Rows.insert Rows.fixed dcl ctx dbs (rsegment rbs m k) = Ok rows
+       /\ map r_val (d_rows (pv c d)) = map enc_row rows.
+Proof. exact BridgeRowsTaskP.declared_projection. Qed.
+Print Assumptions growth_table_is_declared_projection.
+
+(* ... hence every stored row is a row C11's theorems speak about
+   ([declared_row], which is C11's row_cells_spec / tx_row_cells_spec /
+   block_field_of_enclosing_item_log/tx/trace for the very item named by the
+   row's identity key): it was built from a log / transaction / trace action
+   of a block [b] of the chain, its block number is [b]'s, its key holds that
+   item's indices, every selected input's column holds the typed topic / the
+   typed decoded value ([Rows.row_spec]), every block-data column holds the
+   named field of the enclosing block, transaction, log, trace action
+   ([Rows.enclosing_fields]), and there are no other columns. *)
+Theorem stored_rows_are_declared_rows : forall dcl ctx dbs rbs c d,
+  inserts_ok dcl ctx dbs rbs -> N.of_nat (length rbs) < nmax ->
+  TaskInvG c (inst_chain dcl ctx dbs rbs) d ->
+  forall r, In r (d_rows (pv c d)) ->
+  exists b k gr, In b rbs /\ r = trow_of c (Rows.b_num b) (k, gr) /\ declared_row dcl ctx dbs b k gr.
+Proof. exact BridgeRowsTaskP.stored_row_declared. Qed.
+Print Assumptions stored_rows_are_declared_rows.
+
+(* the identity key and the stamped block number are what the columns of the
+   table's generated unique index hold, whenever the declaration binds them
+   (block_num, tx_idx, log_idx, trace_action_idx, abi_idx: the entries
+   AddRequiredFields adds): the model's key is the database's key *)
+Theorem stored_rows_key_columns : forall dcl ctx dbs b k gr,
+  declared_row dcl ctx dbs b k gr -> key_columns dcl b k gr.
+Proof. exact BridgeRowsTaskP.declared_row_key_columns. Qed.
+Print Assumptions stored_rows_key_columns.
+
+(* growth_reaches_head composed with (1) and (2): fault-free steps against an
+   honest node serving the instantiated chain of a well-formed rows-level
+   chain bring the position to the target min(head, stop), and the table then
+   is the declared projection of the blocks [m, target] *)
+Theorem declared_growth_reaches_head : forall dcl ctx dbs rbs c,
+  cfg_ok c -> rows_chain_wf rbs -> Forall wf_items rbs -> inserts_ok dcl ctx dbs rbs ->
+  N.of_nat (length rbs) < nmax -> t_deps c = [] ->
+  forall g d ln x,
+  pv c d = render c g -> wf_ghost c g ->
+  Forall (on_chain (t_hashes c) (inst_chain dcl ctx dbs rbs)) (concat g) ->
+  blk_at (inst_chain dcl ctx dbs rbs) ln = Some x -> at_pos c g ln ->
+  ln < clip c (N.of_nat (length rbs) - 1) ->
+  exists n m k h rows,
+    (1 <= n <= N.to_nat (clip c (N.of_nat (length rbs) - 1) - ln))%nat
+    /\ 1 <= k /\ m + k = clip c (N.of_nat (length rbs) - 1) + 1
+    /\ newest (t_src c) (t_ig c) (d_curs (iter (hstepf c (inst_chain dcl ctx dbs rbs)) n d))
+       = Some (clip c (N.of_nat (length rbs) - 1), h)
+    /\ d_rows (pv c (iter (hstepf c (inst_chain dcl ctx dbs rbs)) n d))
+       = concat (map (declared_rows c dcl ctx dbs) (rsegment rbs m k))
+    /\ Rows.insert Rows.fixed dcl ctx dbs (rsegment rbs m k) = Ok rows
+    /\ map r_val (d_rows (pv c (iter (hstepf c (inst_chain dcl ctx dbs rbs)) n d))) = map enc_row rows
+    /\ outside c (iter (hstepf c (inst_chain dcl ctx dbs rbs)) n d) = outside c d.
+Proof. exact BridgeRowsTaskP.declared_reaches_head. Qed.
+Print Assumptions declared_growth_reaches_head.
+
 Example c01_cfg_ok : cfg_ok (wcfg 1 4) /\ cfg_ok (wcfg 10 3).
 Proof. exact (conj (proj1 cfg_ok_examples) (proj1 (proj2 cfg_ok_examples))). Qed.
+
+(* (3) the bridge is not vacuous.  Event E(uint256 indexed a, uint256 v), both
+   selected, block data block_num, tx_idx, log_idx, abi_idx; chain: block 0
+   empty, block 1 = tx 0 with log 0 (a = 5, v = 9), block 2 = tx 3 with log 4
+   (a = 6, v = 10); the logs carry ABI-encoded data decoded by the model of
+   C09/C10.  The hypotheses of the theorems hold; two fault-free steps of the
+   executable task model (batch 1) from the empty database store exactly the
+   two expected C11 rows under their identity keys, and one Insert over blocks
+   1..2 returns exactly these rows. *)
+Example bridge_hypotheses_satisfiable :
+  cfg_ok (ex_task 1 1) /\ rows_chain_wf ex_rchain /\ Forall wf_items ex_rchain
+  /\ inserts_ok ex_decl ex_ctx [] ex_rchain.
+Proof. exact BridgeRowsTaskP.ex_hyps. Qed.
+Example bridge_run :
+  let c := ex_task 1 1 in
+  let d := iter (hstepf c ex_chain) 2 (Db [] []) in
+  d_rows d =
+    [ trow_of c 1 (Key 0 (Some 0) (Some 0%nat) None,
+        [Filter.VU256 5; Filter.VU256 9; Filter.VU64 1; Filter.VU64 0; Filter.VU64 0; Filter.VInt Z0]);
+      trow_of c 2 (Key 3 (Some 4) (Some 0%nat) None,
+        [Filter.VU256 6; Filter.VU256 10; Filter.VU64 2; Filter.VU64 3; Filter.VU64 4; Filter.VInt Z0]) ]
+  /\ d_curs d = [Cur 1 2 1 (hid [2]); Cur 1 2 2 (hid [3])]
+  /\ Rows.insert Rows.fixed ex_decl ex_ctx [] (rsegment ex_rchain 1 2)
+     = Ok [ [Filter.VU256 5; Filter.VU256 9; Filter.VU64 1; Filter.VU64 0; Filter.VU64 0; Filter.VInt Z0];
+            [Filter.VU256 6; Filter.VU256 10; Filter.VU64 2; Filter.VU64 3; Filter.VU64 4; Filter.VInt Z0] ].
+Proof. vm_compute. repeat split; reflexivity. Qed.
+(* batch 5 x concurrency 3: one step, same table *)
+Example bridge_run_one_step :
+  d_rows (iter (hstepf (ex_task 5 3) ex_chain) 1 (Db [] []))
+  = d_rows (iter (hstepf (ex_task 1 1) ex_chain) 2 (Db [] [])).
+Proof. vm_compute. reflexivity. Qed.
+(* without [wf_items] (duplicate log index): the COPY violates the unique
+   index, the step fails and stores nothing *)
+Example bridge_duplicate_keys_step_fails :
+  let x := exec_honest 400 true true (inst_chain ex_decl ex_ctx [] ex_bad_rchain)
+                       (converge (ex_task 1 1)) (Db [] []) None in
+  r_out x = Fin OFailed /\ r_db x = Db [] [].
+Proof. exact BridgeRowsTaskP.dup_keys_step_fails. Qed.
